@@ -131,7 +131,37 @@ def gen_case(rng: random.Random):
             calls.append({"one": rng.randrange(ns), "r": r})
     # the streams are used between the updates: draws from every stream before each call, 2 recorded after it
     pre = [rng.choice([0, 1, 1, 2, 3, 5]) for _ in calls]
-    return {"updater": upd, "streams": streams, "calls": calls, "pre": pre, "post": 2}
+    case = {"updater": upd, "streams": streams, "calls": calls, "pre": pre, "post": 2}
+    # the seed table is reconfigured (StreamSeedInformation.add_seed_values) between two replications: a stream
+    # gets a seed list for the first time, a list is replaced by a shorter / longer / different one
+    if upd["kind"] == "table" and len(calls) >= 2 and rng.random() < 0.45:
+        reconf = []
+        for _ in range(rng.choice([1, 1, 2])):
+            at = rng.randint(1, len(calls) - 1)
+            listed_now = [k for k, _ in upd["table"]] + [n for _a, n, _v in reconf]
+            fresh_names = [s["name"] for s in streams if s["kind"] == "stream" and s["name"] not in listed_now]
+            if fresh_names and (not listed_now or rng.random() < 0.5):
+                n = rng.choice(fresh_names)
+                old_len = 0
+            else:
+                if not listed_now:
+                    continue
+                n = rng.choice(listed_now)
+                old_len = max([len(v) for k, v in upd["table"] if k == n] + [len(v) for _a, k, v in reconf if k == n])
+            k = rng.choice([0, 1, max(0, old_len - 1), max(0, old_len - 2), old_len + 1, old_len + 3, 4])
+            reconf.append([at, n, [rng.choice(SEEDS + [rng.randint(-10 ** 6, 10 ** 6)]) for _ in range(k)]])
+            # make the call after the step look at the part of the table that changed
+            c = calls[at]
+            if rng.random() < 0.6:
+                r = rng.choice([0, max(0, old_len - 1), max(0, k - 1), k, old_len])
+                if "all" in c:
+                    c["all"] = r
+                else:
+                    c["r"] = r
+        reconf.sort(key=lambda x: x[0])
+        if reconf:
+            case["reconf"] = reconf
+    return case
 
 
 def permuted_sibling(rng: random.Random, case):
@@ -158,10 +188,25 @@ def is_int_r(r):
     return not isinstance(r, dict)
 
 
-def listed_seeds(case, name):
+def table_at(case, ci: int):
+    """the seed table as it is configured when call #ci is made: the initial table with the add_seed_values()
+    steps case["reconf"] = [[call index, name, seeds], ...] up to and including those made just before call #ci"""
+    tbl = [[k, list(v)] for k, v in case["updater"]["table"]]
+    for at, n, v in case.get("reconf", []):
+        if at <= ci:
+            for row in tbl:
+                if row[0] == n:
+                    row[1] = list(v)
+                    break
+            else:
+                tbl.append([n, list(v)])
+    return tbl
+
+
+def listed_seeds(case, name, ci: int = 0):
     if case["updater"]["kind"] != "table":
         return None
-    for k, v in case["updater"]["table"]:
+    for k, v in (table_at(case, ci) if case.get("reconf") else case["updater"]["table"]):
         if k == name:
             return v
     return None
@@ -212,7 +257,7 @@ def oracle_case(case, res):
             elif int(r) < 0:
                 must_refuse[i] = "ValueError"
             else:
-                ls = listed_seeds(case, s["name"])
+                ls = listed_seeds(case, s["name"], ci)
                 if ls is not None:
                     if int(r) >= len(ls):
                         must_refuse[i] = "ValueError"
@@ -233,7 +278,7 @@ def oracle_case(case, res):
                             f"{where}: no exception although {sorted(must_refuse.items())} must be refused; seeds {cur} -> {seeds}"))
             elif exc not in ("TypeError", "ValueError"):
                 unl = [streams[i]["name"] for i in targets
-                       if streams[i]["kind"] == "stream" and listed_seeds(case, streams[i]["name"]) is None]
+                       if streams[i]["kind"] == "stream" and listed_seeds(case, streams[i]["name"], ci) is None]
                 if exc == "KeyError" and case["updater"]["kind"] == "table" and unl:
                     bad.append(("unlisted-stream-not-served-by-fallback:KeyError",
                                 f"{where}: raised KeyError (streams without a seed list: {unl})"))
@@ -248,7 +293,7 @@ def oracle_case(case, res):
                 bad.append(("refused-stream-changed", f"{where}: refused for every stream, yet seeds {cur} -> {seeds}"))
         else:
             if exc is not None:
-                unl = [streams[i]["name"] for i in targets if listed_seeds(case, streams[i]["name"]) is None]
+                unl = [streams[i]["name"] for i in targets if listed_seeds(case, streams[i]["name"], ci) is None]
                 sig = (f"unlisted-stream-not-served-by-fallback:{exc}" if exc == "KeyError" and case["updater"]["kind"] == "table" and unl
                        else f"valid-update-raises-{exc}")
                 bad.append((sig, f"{where}: raised {exc} although every addressed stream has a seed for replication {r} "
@@ -256,7 +301,7 @@ def oracle_case(case, res):
             else:
                 for i, v in expect.items():
                     if v is not None and seeds[i] != v:
-                        ls = listed_seeds(case, streams[i]["name"])
+                        ls = listed_seeds(case, streams[i]["name"], ci)
                         sig = "listed-stream-not-given-its-table-seed" if ls is not None else "unlisted-stream-not-given-fallback-seed"
                         bad.append((sig, f"{where}: stream {streams[i]['name']!r} got seed {seeds[i]}, expected {v}"))
                 for i in range(len(streams)):
@@ -331,7 +376,7 @@ def reached_hash_path(case, res) -> bool:
     if len([s for s in case["streams"] if s["kind"] == "stream"]) < 2:
         return False
     u = case["updater"]
-    for c, ob in zip(case["calls"], res["obs"]):
+    for ci, (c, ob) in enumerate(zip(case["calls"], res["obs"])):
         r = c.get("all")
         if r is None or isinstance(r, dict) or ob["exc"] is not None or int(r) <= 0:
             continue
@@ -339,7 +384,7 @@ def reached_hash_path(case, res) -> bool:
             return True
         if u["fb"]["kind"] in ("simple", "nested"):
             inner = {k for k, _ in u["fb"].get("table", [])}
-            if any(s["kind"] == "stream" and listed_seeds(case, s["name"]) is None and s["name"] not in inner
+            if any(s["kind"] == "stream" and listed_seeds(case, s["name"], ci) is None and s["name"] not in inner
                    for s in case["streams"]):
                 return True
     return False
@@ -408,18 +453,44 @@ def cobs(c, ob):
     return f"({call}, {C.clist(cz(x) for x in seeds)}, {exc})"
 
 
+def segments(case, res):
+    """Coq cases of one configuration: the model's updater is fixed within a case, so a configuration whose
+    seed table is reconfigured is cut at those calls; a later piece starts from the seeds observed before it"""
+    n = len(case["calls"])
+    cuts = sorted({at for at, _n, _v in case.get("reconf", []) if 0 < at < n})
+    bounds = [0] + cuts + [n]
+    out = []
+    for a, b in zip(bounds, bounds[1:]):
+        u = case["updater"]
+        if case.get("reconf"):
+            u = dict(u, table=table_at(case, a))
+        streams = case["streams"]
+        if a > 0:
+            prev = res["obs"][a - 1]["seeds"]
+            if not all(isinstance(x, int) for x in prev):
+                return None
+            streams = [dict(s, cur=prev[i]) for i, s in enumerate(streams)]
+        obs = [cobs(c, ob) for c, ob in zip(case["calls"][a:b], res["obs"][a:b])]
+        if None in obs:
+            return None
+        out.append(f"({cupdater(u)}, {C.clist(centry(s) for s in streams)}, {C.clist(obs)})")
+    return out
+
+
 def emit_cases(path: Path, cases, results):
+    """-> owners: for every Coq case of the file the index (within `cases`) of the configuration it belongs to"""
     lines = ["From Coq Require Import ZArith List.", "From PV Require Import Streams.Seeds.",
              "Import ListNotations.", "Open Scope Z_scope."] + ZI_HEADER
     hashes = {}
-    items = []
-    for case, res in zip(cases, results):
+    items, owners = [], []
+    for k, (case, res) in enumerate(zip(cases, results)):
         for n, h in res["hashes"]:
             hashes[n] = h
-        obs = [cobs(c, ob) for c, ob in zip(case["calls"], res["obs"])]
-        if None in obs:      # not representable (unexpected exception / value): a certain mismatch
-            obs = ["(CAll RIllTyped, [], None)"]
-        items.append(f"({cupdater(case['updater'])}, {C.clist(centry(s) for s in case['streams'])}, {C.clist(obs)})")
+        segs = segments(case, res)
+        if segs is None:      # not representable (unexpected exception / value): a certain mismatch
+            segs = [f"({cupdater(case['updater'])}, {C.clist(centry(s) for s in case['streams'])}, [(CAll RIllTyped, [], None)])"]
+        items += segs
+        owners += [k] * len(segs)
     lines.append(f"Definition htbl : list (name * Z) := {C.clist(f'({cname(n)}, {cz(h)})' for n, h in sorted(hashes.items()))}.")
     lines.append("Definition cases : list case := [")
     lines.append(";\n".join(items))
@@ -427,6 +498,7 @@ def emit_cases(path: Path, cases, results):
     lines.append("Eval vm_compute in (mismatches_from 0 case_ok cases).")
     lines.append("Eval vm_compute in (mismatches_from 0 (case_ok_pinned htbl) cases).")
     path.write_text("\n".join(lines) + "\n")
+    return owners
 
 
 # ------------------------------------------------------------------ corpus
@@ -470,8 +542,13 @@ def shrink_case(case, sig, hashseed):
                     acc = 0
                 else:
                     acc += case.get("post", 0)      # the draws recorded after a dropped call still happen before the next one
-            cands.append({"updater": case["updater"], "streams": [st], "calls": [calls[k] for k in keep], "pre": pre,
-                          "post": case.get("post", 0)})
+            cand = {"updater": case["updater"], "streams": [st], "calls": [calls[k] for k in keep], "pre": pre,
+                    "post": case.get("post", 0)}
+            rc = [[len([k for k in keep if k < at]), nm, v] for at, nm, v in case.get("reconf", []) if at < n]
+            rc = [x for x in rc if x[0] < len(keep)]
+            if rc:
+                cand["reconf"] = rc
+            cands.append(cand)
     try:
         outs = C.run_impl_json(DRIVER, cands, timeout=120, env_extra={"PYTHONHASHSEED": hashseed})
     except Exception:  # noqa
@@ -598,7 +675,10 @@ def main(tier: str) -> int:
                         break
             # history-free within a case: the same replication number twice
             done = {}
+            recuts = {at for at, _n, _v in case.get("reconf", [])}
             for ci, (c, ob) in enumerate(zip(case["calls"], res["obs"])):
+                if ci in recuts:
+                    done = {}                   # another table: another function of (name, r)
                 if "all" in c and ob["exc"] is None and not isinstance(c["all"], dict):
                     key = int(c["all"])
                     if key in done and done[key][1] != ob["seeds"]:
@@ -618,11 +698,14 @@ def main(tier: str) -> int:
     run.cov["rule"] = ("random configurations: 1-6 named streams (names incl. empty, non-ASCII, astral, NUL, lone surrogate; ~10% ill-typed keys / "
                        "stream objects), SimpleStreamUpdater or StreamSeedUpdater with random seed table and simple / custom / nested fallback, "
                        "1-4 update_seeds / update_seed calls with replication numbers valid, repeated, 0, beyond the list, negative, ill-typed, bool, huge, "
-                       "the streams drawing numbers before and after every call; "
+                       "the streams drawing numbers before and after every call; the seed table configured through StreamSeedInformation."
+                       "add_seed_values / get_seeds and, in 45% of the table configurations with >= 2 calls, reconfigured between two calls "
+                       "(a new stream listed, a list replaced by a shorter / longer one); "
                        "40% of the configurations re-run listed in another order with other current seeds; every configuration in "
                        f"{len(hashseeds)} child interpreters; non-trivial = distinct configuration with >= 2 streams in which an accepted update_seeds "
                        "with r > 0 reached the name-hash path (simple updater, or simple/nested fallback for an unlisted stream)")
     run.cov["histogram"] = hist
+    run.cov["configurations_with_reconfigured_seed_table"] = sum(1 for c in cases if c.get("reconf"))
     run.cov["draws"] = dict(STATS, rule="0-5 numbers drawn from every stream before each call, the 2 draws of every stream after each call "
                             "compared with a new random.Random(assigned seed) (updated streams) or with the continuation of its sequence (others); "
                             "25% of the calls repeat the previous replication number, 35% of the seed lists have equal consecutive entries")
@@ -653,10 +736,10 @@ def main(tier: str) -> int:
     # ---- model vs implementation inside coqc
     d = C.scratch_dir(PID)
     shard = 400
-    files = []
+    files, owners = [], []
     for s in range(0, len(cases), shard):
         f = d / f"cases_c13_{s // shard}.v"
-        emit_cases(f, cases[s:s + shard], base[s:s + shard])
+        owners.append(emit_cases(f, cases[s:s + shard], base[s:s + shard]))
         files.append(f)
     results = C.coqc_many(files)
     mism, mism_pinned = [], []
@@ -667,8 +750,8 @@ def main(tier: str) -> int:
                           "coqc could not evaluate the C13 correspondence (Streams.Seeds.case_ok): " + out[-600:],
                           {"file": str(files[si])}, found_input=False)
             return run.finish()
-        mism += [si * shard + i for i in lsts[0]]
-        mism_pinned += [si * shard + i for i in lsts[1]]
+        mism += sorted({si * shard + owners[si][i] for i in lsts[0]})
+        mism_pinned += sorted({si * shard + owners[si][i] for i in lsts[1]})
     run.cov["traces_validated_against_impl"] = len(cases) - len(mism)
     run.cov["model_impl_mismatches"] = len(mism)
     run.cov["configurations_matching_the_pinned_model_with_this_process_hash"] = len(cases) - len(mism_pinned)
